@@ -1125,6 +1125,24 @@ func (e *Engine) binop(st *State, op token.Token, a, b Value, at, bt types.Type,
 			return BoolV{c.Or(x.T, y.T)}
 		}
 	case PtrV:
+		if yi, isInt := b.(IntV); isInt && (op == token.ADD || op == token.SUB) {
+			// uintptr arithmetic on a pointer that went through uintptr(unsafe.Pointer(p))
+			d := c.Resize(yi.T, 64, false)
+			if op == token.SUB {
+				d = c.Neg(d)
+			}
+			out := PtrV{}
+			for _, al := range x.Alts {
+				if al.Obj == nil || len(al.Path) == 0 {
+					out.Alts = append(out.Alts, al)
+					continue
+				}
+				np := append([]Sel{}, al.Path...)
+				np[len(np)-1] = addSelT(c, np[len(np)-1], d)
+				out.Alts = append(out.Alts, PtrAlt{G: al.G, Obj: al.Obj, Path: np})
+			}
+			return out
+		}
 		y, ok := b.(PtrV)
 		if !ok {
 			break
